@@ -22,6 +22,8 @@ def eval_program(arg) -> dict:
     common.import_dznpy()
     # one program per run exposes a notification-only provides port (out-events only) as MTS
     notify_only = stream % 9 == 5
+    # ... and one mixes both semantics among its requires ports (explicit names + 'remaining')
+    mixed_requires = stream % 9 == 2
 
     def has_user_bound_events(info):
         # the forced assignments below are only worth something if the ports they address have
@@ -31,6 +33,8 @@ def eval_program(arg) -> dict:
         if notify_only:
             return any(info['ports'][p]['n_out'] and not info['ports'][p]['n_in']
                        for p in info['provides'])
+        if mixed_requires:
+            return sum(1 for p in info['requires'] if info['ports'][p]['n_in']) >= 2
         return requires_in if stream % 2 == 0 else (provides_out and requires_in)
     # the last program of a run arbiters an interface that has no out-events at all
     mc_in_only = stream % 10 == 9
@@ -39,7 +43,11 @@ def eval_program(arg) -> dict:
         mc_position=['first', 'middle', 'last'][(stream // 3) % 3], mc_shape=stream // 3,
         accept=None if mc_in_only else has_user_bound_events, mc_no_outs=mc_in_only)
     # cover every semantics x direction combination in every run, whatever the random draw
-    if stream % 2 == 0:
+    if mixed_requires:
+        with_in = [p for p in prog.info['requires'] if prog.info['ports'][p]['n_in']]
+        prog.enc['requires'] = {'sts': sorted(with_in[:1]), 'mts': 'REMAINING'} if stream % 2 == 0 \
+            else {'sts': 'REMAINING', 'mts': sorted(with_in[:1])}
+    elif stream % 2 == 0:
         prog.enc['requires'] = {'sts': 'NONE', 'mts': 'ALL'}
     elif notify_only:
         prog.enc['provides'] = {'sts': 'NONE', 'mts': 'ALL'}
@@ -57,6 +65,8 @@ def eval_program(arg) -> dict:
         cnt['programs_with_a_notification_only_mts_provides_port'] = 1
     if mc_in_only:
         cnt['programs_arbitering_an_interface_without_out_events'] = 1
+    if mixed_requires:
+        cnt['programs_with_mixed_requires_semantics'] = 1
 
     def play(lines, tag, expect_throw, what):
         script = '\n'.join(lines) + '\n'
@@ -158,6 +168,7 @@ def main(tier: str) -> int:
                 'late_registration_after_0_clients',
                 'programs_with_a_notification_only_mts_provides_port',
                 'programs_arbitering_an_interface_without_out_events',
+                'programs_with_mixed_requires_semantics',
                 'omitted_on_MTS_requires_port', 'omitted_on_MTS_provides_port',
                 'omitted_on_STS_requires_port', 'omitted_on_STS_provides_port')
     scratch = run.scratch()
